@@ -2,7 +2,9 @@ package rules
 
 import (
 	"fmt"
+	"os"
 	"sort"
+	"strings"
 
 	"elyslint/core"
 
@@ -109,6 +111,7 @@ func checkC03(P *core.Program, R *core.Report) {
 		R.Assume("C03 range assumption used: " + u)
 	}
 	R.Analysed["c03_range_assumptions_used"] = len(us)
+	checkSolvePairing(P, R)
 }
 
 func fOf(av core.AV) string {
@@ -130,4 +133,93 @@ func notes(E *core.Ranger) string {
 		s += w + "; "
 	}
 	return s
+}
+
+// checkSolvePairing: solveConstantFunctionInvariant(balFixedBefore, balFixedAfter, weightFixed,
+// balUnknownBefore, weightUnknown) prices one asset against another; the weight handed in
+// next to a balance must be the weight of the very pool-asset record the balance is read
+// from (the in-asset's balance with the in-asset's weight, the out-asset's with the
+// out-asset's).  Decided by provenance for every call site in the amm types package: the
+// pool-asset roots of the weight argument (ignoring the oracle-weight override, which is
+// indexed in the same order) equal those of the balance argument.
+func checkSolvePairing(P *core.Program, R *core.Report) {
+	solve := P.Fn("x/amm/types.solveConstantFunctionInvariant")
+	if solve == nil {
+		R.Add("C03-pairing", "x/amm/types.solveConstantFunctionInvariant", "function", "-", false, "unresolved anchor")
+		return
+	}
+	n := 0
+	for _, e := range P.CG().In[solve] {
+		fn := e.Caller
+		if core.IsGeneratedOrAux(P.File(fn.Pos())) {
+			continue
+		}
+		c, ok := e.Site.(ssa.CallInstruction)
+		if !ok || len(c.Common().Args) != 5 {
+			continue
+		}
+		ff := P.Facts(fn)
+		// the PoolAsset record(s) a value is read from: origins whose path runs through a
+		// PoolAsset field (…Token.Amount / …Weight); identified by root value and tuple slot
+		assetRoots := func(v ssa.Value, field string) map[string]bool {
+			out := map[string]bool{}
+			for _, o := range ff.OriginsT(v, func(c *ssa.Call) []ssa.Value {
+				switch core.CalleeName(c.Common()) {
+				case "LegacyNewDecFromInt", "ToLegacyDec", "NewInt", "LegacyNewDec", "LegacyNewDecFromBigInt", "BigInt":
+					return c.Common().Args[:1]
+				}
+				return nil
+			}) {
+				i := strings.LastIndex(o.Path, field)
+				if i < 0 || o.Val == nil {
+					continue
+				}
+				if o.Kind == "call" && strings.HasSuffix(o.Name, "GetOraclePoolNormalizedWeights") {
+					continue // oracle pools override the weights by an array built in argument order
+				}
+				out[fmt.Sprintf("%s%s", ff.TermKey(o.Val), o.Path[:i])] = true
+			}
+			return out
+		}
+		a := c.Common().Args
+		if os.Getenv("ELYSLINT_POLY_DEBUG") != "" {
+			for i, x := range a {
+				fmt.Fprintf(os.Stderr, "c03 pairing %s arg%d:", P.Key(fn), i)
+				for _, o := range ff.Origins(x) {
+					fmt.Fprintf(os.Stderr, " [%s]", o)
+				}
+				fmt.Fprintln(os.Stderr)
+			}
+		}
+		pairs := [][2]int{{0, 2}, {3, 4}}
+		names := []string{"fixed side", "unknown side"}
+		for pi, pr := range pairs {
+			bal := assetRoots(a[pr[0]], ".Token.Amount")
+			w := assetRoots(a[pr[1]], ".Weight")
+			if len(bal) == 0 || len(w) == 0 {
+				continue // share-pricing calls (join/exit) pass totals and the constant one
+			}
+			n++
+			same := len(bal) == len(w)
+			for k := range bal {
+				if !w[k] {
+					same = false
+				}
+			}
+			R.Add("C03-pairing", P.Key(fn), "solve: weight and balance of the "+names[pi], P.Pos(P.InstrPos(c)), same,
+				fmt.Sprintf("the weight must belong to the pool asset whose balance is priced; balance from %v, weight from %v", keysOf(bal), keysOf(w)))
+		}
+	}
+	if n == 0 {
+		R.Add("C03-pairing", "x/amm/types.solveConstantFunctionInvariant", "call sites", "-", false, "no swap call site pairs a pool-asset balance with a weight (anchor changed)")
+	}
+}
+
+func keysOf(m map[string]bool) []string {
+	var ks []string
+	for k := range m {
+		ks = append(ks, k)
+	}
+	sort.Strings(ks)
+	return ks
 }
